@@ -115,31 +115,46 @@ Qed.
 (* ---------------------------------------------------------------------- *)
 (* stalled: nothing consumer [id] does between the two sweeps (quiet) *)
 
+(* what a jammed consumer SENDS: the read loop's reply (OPTIONS) is rejected by
+   the full queue, which ends the loop with the connection closed; everything
+   else is read and logged.  Still jammed, write counter untouched. *)
+Lemma jammed_in_local size x s : jammed (s_conn s) -> jammed (s_conn (in_local size x s)).
+Proof.
+  intros Hj. unfold in_local. destruct (c_closed (s_conn s) || negb (in_ok (s_kind s) x)); [exact Hj|].
+  destruct (in_reply (s_kind s) x) as [u|].
+  - cbn [add_crd s_conn]. destruct (jammed_enqueue u (s_conn s) Hj) as [H1 H2].
+    destruct (enqueue u (s_conn s)) as [c1 w]. cbn [fst snd s_conn] in *. subst c1.
+    destruct w; [congruence|apply jammed_wclose|apply jammed_wclose].
+  - destruct (in_ends (s_kind s)); [cbn; apply jammed_wclose|exact Hj].
+Qed.
+
 Lemma jammed_quiet_step ev s :
   is_rtp (s_kind s) = true -> su_no_udp (kind_setup (s_kind s)) = true -> jammed (s_conn s) ->
   quiet (s_id s) ev ->
-  s_conn (srun1 ev s) = s_conn s /\ s_acc (srun1 ev s) = s_acc s /\ s_stale (srun1 ev s) = s_stale s.
+  jammed (s_conn (srun1 ev s)) /\ s_acc (srun1 ev s) = s_acc s /\ s_stale (srun1 ev s) = s_stale s.
 Proof.
   intros Hk Hnu Hj Hq. unfold srun1. destruct ev; cbn [local fst]; cbn in Hq.
-  - apply jammed_pub; assumption.
-  - unfold on_conn. destruct (Nat.eqb (s_id s) i); [|repeat split]. cbn. rewrite jammed_take by exact Hj. repeat split.
-  - unfold on_conn. destruct (Nat.eqb (s_id s) i) eqn:E; [|repeat split]. apply Nat.eqb_eq in E. congruence.
-  - unfold on_conn. destruct (Nat.eqb (s_id s) i) eqn:E; [|repeat split]. apply Nat.eqb_eq in E. congruence.
-  - unfold on_conn. destruct (Nat.eqb (s_id s) i) eqn:E; [|repeat split]. apply Nat.eqb_eq in E. congruence.
+  - destruct (jammed_pub eager bufs s Hk Hnu Hj) as [H1 [H2 H3]]. rewrite H1. repeat split; assumption.
+  - unfold on_conn. destruct (Nat.eqb (s_id s) i); [|repeat split; assumption]. cbn. rewrite jammed_take by exact Hj. repeat split; assumption.
+  - unfold on_conn. destruct (Nat.eqb (s_id s) i) eqn:E; [|repeat split; assumption]. apply Nat.eqb_eq in E. congruence.
+  - unfold on_conn. destruct (Nat.eqb (s_id s) i) eqn:E; [|repeat split; assumption]. apply Nat.eqb_eq in E. congruence.
+  - unfold on_conn. destruct (Nat.eqb (s_id s) i) eqn:E; [|repeat split; assumption]. apply Nat.eqb_eq in E. congruence.
   - contradiction.
+  - destruct (Nat.eqb (s_id s) i); [|repeat split; assumption].
+    destruct (in_local_kind size x s) as [_ [_ [H3 H4]]]. repeat split; [apply jammed_in_local|..]; assumption.
 Qed.
 
 Lemma jammed_quiet_run evs : forall s,
   is_rtp (s_kind s) = true -> su_no_udp (kind_setup (s_kind s)) = true -> jammed (s_conn s) ->
   Forall (quiet (s_id s)) evs ->
-  s_conn (srun evs s) = s_conn s /\ s_acc (srun evs s) = s_acc s /\ s_stale (srun evs s) = s_stale s.
+  jammed (s_conn (srun evs s)) /\ s_acc (srun evs s) = s_acc s /\ s_stale (srun evs s) = s_stale s.
 Proof.
-  induction evs as [|ev r IH]; intros s Hk Hnu Hj Hq; [repeat split|].
+  induction evs as [|ev r IH]; intros s Hk Hnu Hj Hq; [repeat split; assumption|].
   inversion Hq as [|? ? Hq1 Hq2]; subst. cbn [srun].
   destruct (jammed_quiet_step ev s Hk Hnu Hj Hq1) as [H1 [H2 H3]].
   destruct (srun1_kind ev s) as [Hk' Hid'].
-  destruct (IH (srun1 ev s)) as [H4 [H5 H6]]; try (rewrite ?Hk', ?Hid', ?H1; assumption).
-  repeat split; congruence.
+  destruct (IH (srun1 ev s)) as [H4 [H5 H6]]; try (rewrite ?Hk', ?Hid'; assumption).
+  repeat split; [assumption|congruence|congruence].
 Qed.
 
 Lemma sweep_one_kind s : s_kind (sweep_one s) = s_kind s /\ s_id (sweep_one s) = s_id s /\ s_acc (sweep_one s) = s_acc s.
@@ -194,7 +209,9 @@ Lemma idle_step ev s : is_rtp (s_kind s) = true -> idle_ev (kind_setup (s_kind s
   s_acc (srun1 ev s) = s_acc s /\ s_stale (srun1 ev s) = s_stale s.
 Proof.
   intros Hk Hi. unfold srun1. destruct ev; cbn [local fst]; cbn [idle_ev] in Hi;
-    try (unfold on_conn; destruct (Nat.eqb (s_id s) i); split; reflexivity); [|contradiction].
+    try (unfold on_conn; destruct (Nat.eqb (s_id s) i); split; reflexivity); [|contradiction|].
+  2:{ destruct (Nat.eqb (s_id s) i); [|split; reflexivity].
+      destruct (in_local_kind size x s) as [_ [_ [H3 H4]]]. split; assumption. }
   unfold sess_write, sess_write_gen.
   destruct (sess_units (s_kind s) bufs) as [us|] eqn:Hu; [|split; reflexivity].
   destruct (rtp_units_track _ _ _ Hk Hu) as [t Ht]. rewrite Ht in Hi.
@@ -233,11 +250,13 @@ Lemma acc_mono_step ev s : not_sweep ev ->
 Proof.
   intros Hn. unfold srun1. destruct ev; cbn [local fst]; cbn in Hn; try contradiction;
     try (unfold on_conn; destruct (Nat.eqb (s_id s) i); split; cbn; try lia; reflexivity).
-  unfold sess_write, sess_write_gen. destruct (sess_units (s_kind s) bufs) as [us|]; [|cbn [fst]; split; [lia|reflexivity]].
+  - unfold sess_write, sess_write_gen. destruct (sess_units (s_kind s) bufs) as [us|]; [|cbn [fst]; split; [lia|reflexivity]].
   destruct (enq_all eager us (s_conn s)) as [c ws]. cbn [fst s_acc s_stale].
   split; [|reflexivity].
   destruct (is_rtp (s_kind s)); [|lia]. destruct (rtp_track (concat bufs)); [|lia].
   destruct (rtp_counts _ _ _ _); lia.
+  - destruct (Nat.eqb (s_id s) i); [|split; [lia|reflexivity]].
+    destruct (in_local_kind size x s) as [_ [_ [H3 H4]]]. split; [lia|exact H3].
 Qed.
 
 Lemma acc_mono_run evs : forall s, Forall not_sweep evs ->
@@ -332,32 +351,32 @@ Lemma f34_facts :
   lenN (concat [f34_audio]) = 13 /\ c_closed c0 = false.
 Proof. eexists. vm_compute. repeat split. Qed.
 
-Lemma f34_video_write counts id st acc udp att :
+Lemma f34_video_write counts id st acc udp att crd rd :
   counts su_video_tcp TVideo false [WFull] = false ->
-  fst (sess_write_gen counts true [f34_video] (mk_sess id (KRtp su_video_tcp) (s_conn f34_start) st acc udp att))
-  = mk_sess id (KRtp su_video_tcp) (s_conn f34_start) st acc udp (att + 1).
+  fst (sess_write_gen counts true [f34_video] (mk_sess id (KRtp su_video_tcp) (s_conn f34_start) st acc udp att crd rd))
+  = mk_sess id (KRtp su_video_tcp) (s_conn f34_start) st acc udp (att + 1) crd rd.
 Proof.
   intros Hc. destruct f34_facts as [u [Hu [He [Ha [Htv [Hta [Hl Ho]]]]]]]. cbv zeta in *.
-  unfold sess_write_gen. cbn [s_kind s_conn s_stale s_acc s_udp s_att s_id].
+  unfold sess_write_gen. cbn [s_kind s_conn s_stale s_acc s_udp s_att s_id s_crd s_rd].
   rewrite Hu, He, Htv, Ho. cbn [is_rtp kind_setup fst]. rewrite Hc.
   reflexivity.
 Qed.
 
-Lemma f34_audio_write_pinned id st acc udp att :
-  fst (sess_write_pinned true [f34_audio] (mk_sess id (KRtp su_video_tcp) (s_conn f34_start) st acc udp att))
-  = mk_sess id (KRtp su_video_tcp) (s_conn f34_start) st (acc + 13) udp (att + 0).
+Lemma f34_audio_write_pinned id st acc udp att crd rd :
+  fst (sess_write_pinned true [f34_audio] (mk_sess id (KRtp su_video_tcp) (s_conn f34_start) st acc udp att crd rd))
+  = mk_sess id (KRtp su_video_tcp) (s_conn f34_start) st (acc + 13) udp (att + 0) crd rd.
 Proof.
   destruct f34_facts as [u [Hu [He [Ha [Htv [Hta [Hl Ho]]]]]]]. cbv zeta in *.
-  unfold sess_write_pinned, sess_write_gen. cbn [s_kind s_conn s_stale s_acc s_udp s_att s_id].
+  unfold sess_write_pinned, sess_write_gen. cbn [s_kind s_conn s_stale s_acc s_udp s_att s_id s_crd s_rd].
   rewrite Ha. cbn [enq_all]. rewrite Hta, Hl, Ho. reflexivity.
 Qed.
 
 Lemma f34_round_pinned s : f34_shape s -> f34_shape (f34_round sess_write_pinned s).
 Proof.
-  intros [Hk [Hc Hst]]. destruct s as [id k c st acc udp att]. cbn [s_kind s_conn s_stale s_acc] in *. subst k c st.
+  intros [Hk [Hc Hst]]. destruct s as [id k c st acc udp att crd rd]. cbn [s_kind s_conn s_stale s_acc] in *. subst k c st.
   unfold f34_round. unfold sess_write_pinned at 2. rewrite f34_video_write by reflexivity.
   rewrite f34_audio_write_pinned.
-  unfold f34_shape, sweep_one, sess_wrote. cbn [s_kind s_conn s_stale s_acc s_udp s_att s_id is_rtp].
+  unfold f34_shape, sweep_one, sess_wrote. cbn [s_kind s_conn s_stale s_acc s_udp s_att s_id s_crd s_rd is_rtp].
   replace (acc + 13 =? acc) with false by (symmetry; apply N.eqb_neq; lia).
   repeat split.
 Qed.
